@@ -20,6 +20,8 @@ struct Options {
     bool faults = false;
     int fault_budget = 0;
     int submit_budget = 0;
+    int fault_ops = -1;      // max number of operations of one history that contain an injected fault (-1: unlimited)
+    int guard_budget = -1;   // max number of guards answering false per operation (-1: unlimited)
     int qbound = 2;
     long max_exec = 5000000;
     long max_states = 2000000;
@@ -35,7 +37,7 @@ struct Options {
 struct Exec {
     std::string trace; int ret; std::vector<Choice> choices; std::string canon; std::string intro;
     bool escaped = false; std::string escaped_what; bool ledger_error = false; std::string ledger_msg;
-    int pending = 0; bool started = false; std::string rawseq;
+    int pending = 0; bool started = false; std::string rawseq; int rootq = 0;
 };
 
 static bool g_started = false;
@@ -46,7 +48,8 @@ inline std::string canon_state(zoo::RootT& r) {
     s += "L:";
     for (auto& kv : E.parity) if (kv.second != 0) s += std::to_string(kv.first) + "=" + std::to_string(kv.second) + ",";
     s += ";P:";
-    for (int ser : E.submitted) { auto it = E.live.find(ser); if (it != E.live.end() && it->second > 0) s += std::to_string(E.serial_type[ser]) + ","; }
+    std::set<int> marked; zoo::vf_marked(r, marked);
+    for (int ser : E.submitted) { auto it = E.live.find(ser); if (it != E.live.end() && it->second > 0 && !marked.count(ser)) s += std::to_string(E.serial_type[ser]) + ","; }
     s += ";C:";
     for (auto& kv : E.cmemo) {
         // relevant only while the entry of the source state it was fixed for is still the current one
@@ -57,9 +60,10 @@ inline std::string canon_state(zoo::RootT& r) {
     return s;
 }
 
-inline int pending_count() {
+inline int pending_count(zoo::RootT& r) {
     Env& E = env(); int n = 0;
-    for (int ser : E.submitted) { auto it = E.live.find(ser); if (it != E.live.end() && it->second > 0) n++; }
+    std::set<int> marked; zoo::vf_marked(r, marked);
+    for (int ser : E.submitted) { auto it = E.live.find(ser); if (it != E.live.end() && it->second > 0 && !marked.count(ser)) n++; }
     return n;
 }
 
@@ -78,6 +82,7 @@ inline Exec run_history(const History& h, const Options& o, bool want_intro, std
         for (size_t i = 0; i < h.size(); ++i) {
             const Step& st = h[i];
             E.begin_op(st.tape);
+            E.faults = o.faults && st.op != "start" && st.op != "stop";   // C12 is about process_event
             int ret = -1; bool esc = false; std::string what;
             try {
                 ret = zoo::vf_apply(*root, st.op, st.ev);
@@ -100,7 +105,7 @@ inline Exec run_history(const History& h, const Options& o, bool want_intro, std
                 x.trace = E.trace; x.ret = ret; x.choices = E.choices; x.escaped = esc; x.escaped_what = what;
                 x.canon = canon_state(*root);
                 x.ledger_error = E.ledger_error; x.ledger_msg = E.ledger_msg;
-                x.pending = pending_count(); x.started = g_started; x.rawseq = zoo::vf_rawseq(*root);
+                x.pending = pending_count(*root); x.started = g_started; x.rawseq = zoo::vf_rawseq(*root); x.rootq = zoo::vf_rootq(*root);
                 if (want_intro) { x.intro = zoo::vf_introspect(*root); x.intro += " AND:" + zoo::vf_flags_and(*root); }
                 if (all) all->push_back(x);
             }
@@ -129,12 +134,12 @@ inline bool op_enabled(const std::pair<std::string,int>& op, const Exec& st, con
     if (n == "start") return !st.started;
     if (!st.started) return false;
     if (n == "pe" || n == "eq") return st.pending < o.qbound;
-    if (n == "xs") return st.pending > 0;
+    if (n == "xs") return st.rootq > 0;   // execute_single_queued_event on an empty queue is a precondition violation
     if (n == "stop") return st.pending == 0 || o.stop_with_pending;   // events pending across stop()/start(): unspecified corner
     return true;
 }
 
-struct Node { History hist; Exec st; int depth; };
+struct Node { History hist; Exec st; int depth; int nfaultops; };
 
 inline int explore(const Options& o) {
     auto t0 = std::chrono::steady_clock::now();
@@ -145,13 +150,14 @@ inline int explore(const Options& o) {
     Exec init = run_history(History(), o, o.introspect);
     seen[init.canon] = 0;
     *out << "S\t0\t" << init.canon << "\t" << init.intro << "\n";
-    frontier.push_back(Node{History(), init, 0});
-    long nexec = 0, ntrans = 0; int maxdepth = 0; bool capped = false; std::string cap;
+    frontier.push_back(Node{History(), init, 0, 0});
+    long nexec = 0, ntrans = 0, npruned = 0, nledger = 0; int maxdepth = 0; bool capped = false; std::string cap;
     int n_menu = (o.submit_budget > 0) ? zoo::vf_nmenu : 0;
     while (!frontier.empty()) {
         Node nd = frontier.front(); frontier.pop_front();
         if (nd.depth > maxdepth) maxdepth = nd.depth;
         if (nd.depth >= o.depth) { capped = true; cap = "depth"; continue; }
+        if (nd.st.pending > o.qbound) { npruned++; continue; }   // alphabet bound: at most qbound pending events
         int src = seen[nd.st.canon];
         for (auto& op : o.alphabet) {
             if (!op_enabled(op, nd.st, o)) continue;
@@ -162,15 +168,17 @@ inline int explore(const Options& o) {
                 Exec x = run_history(h, o, false);
                 nexec++;
                 // successors in the DFS over environment answers
-                int used_f = 0, used_s = 0;
+                int used_f = 0, used_s = 0, used_g = 0;
                 for (size_t i = 0; i < x.choices.size(); ++i) {
                     const Choice& c = x.choices[i];
                     if (i >= prefix.size()) {
                         for (int alt = 1; alt < c.n; ++alt) {
+                            if ((c.kind == 'g' || c.kind == 'd') && o.guard_budget >= 0 && used_g + 1 > o.guard_budget) continue;
                             if (c.kind == 'p') {
                                 bool can_throw = (c.n - 1 - n_menu) == 1;
                                 bool is_fault = can_throw && alt == 1;
                                 if (is_fault && used_f + 1 > o.fault_budget) continue;
+                                if (is_fault && o.fault_ops >= 0 && nd.nfaultops >= o.fault_ops) continue;
                                 if (!is_fault && used_s + 1 > o.submit_budget) continue;
                             }
                             std::vector<int> np;
@@ -179,11 +187,14 @@ inline int explore(const Options& o) {
                             stack.push_back(np);
                         }
                     }
+                    if ((c.kind == 'g' || c.kind == 'd') && c.chosen != 0) used_g++;
                     if (c.kind == 'p' && c.chosen != 0) {
                         bool can_throw = (c.n - 1 - n_menu) == 1;
                         if (can_throw && c.chosen == 1) used_f++; else used_s++;
                     }
                 }
+                int child_fo = nd.nfaultops + (used_f > 0 ? 1 : 0);
+                if (o.fault_ops >= 0) x.canon += ";FO:" + std::to_string(child_fo);
                 auto it = seen.find(x.canon);
                 int dst;
                 bool isnew = false;
@@ -200,11 +211,13 @@ inline int explore(const Options& o) {
                 *out << "X\t" << src << "\t" << op.first << ":" << op.second << "\t" << tape_str(x.choices) << "\t" << rawtape << "\t"
                      << (x.trace.empty() ? "-" : x.trace) << "\t" << x.ret << "\t" << dst << "\t"
                      << (x.escaped ? "ESC:" + x.escaped_what : "-") << "\t" << (x.ledger_error ? x.ledger_msg : "-") << "\t" << x.rawseq << "\n";
-                if (isnew) {
+                bool stop_here = x.ledger_error && !o.faults;   // with injected faults a broken ledger is expected (C03 excludes exceptions)
+                if (isnew && stop_here) { nledger++; }   // a broken entry/exit ledger is reported; nothing is explored beyond it
+                if (isnew && !stop_here) {
                     // normalise the stored history: full tape of the chosen alternatives
                     History hh = nd.hist; std::vector<int> full; for (auto& c : x.choices) full.push_back(c.chosen);
                     hh.push_back(Step{op.first, op.second, full});
-                    frontier.push_back(Node{hh, x, nd.depth + 1});
+                    frontier.push_back(Node{hh, x, nd.depth + 1, child_fo});
                     if ((long)seen.size() >= o.max_states) { capped = true; cap = "max_states"; }
                 }
                 if (nexec >= o.max_exec) { capped = true; cap = "max_exec"; }
@@ -219,7 +232,7 @@ inline int explore(const Options& o) {
     double el = std::chrono::duration<double>(std::chrono::steady_clock::now() - t0).count();
     bool closed = frontier.empty() && !capped;
     *out << "E\tstates=" << seen.size() << "\ttransitions=" << ntrans << "\texecutions=" << nexec << "\tmaxdepth=" << maxdepth
-         << "\tclosed=" << (closed ? 1 : 0) << "\tcap=" << (capped ? cap : "-") << "\twall=" << el << "\n";
+         << "\tpruned_pending=" << npruned << "\tpruned_ledger=" << nledger << "\tclosed=" << (closed ? 1 : 0) << "\tcap=" << (capped ? cap : "-") << "\twall=" << el << "\n";
     out->flush();
     return 0;
 }
@@ -268,6 +281,8 @@ int main(int argc, char** argv) {
         else if (a == "--faults") { o.fault_budget = atoi(next().c_str()); o.faults = o.fault_budget > 0; }
         else if (a == "--submits") o.submit_budget = atoi(next().c_str());
         else if (a == "--qbound") o.qbound = atoi(next().c_str());
+        else if (a == "--guards") o.guard_budget = atoi(next().c_str());
+        else if (a == "--fault-ops") o.fault_ops = atoi(next().c_str());
         else if (a == "--max-exec") o.max_exec = atol(next().c_str());
         else if (a == "--max-states") o.max_states = atol(next().c_str());
         else if (a == "--introspect") o.introspect = true;
